@@ -59,6 +59,7 @@ typedef struct Thread {
     int in_cond_wait_mutex_reacquire;
     void *cond_mutex;
     unsigned long sleep_until;
+    void *pend_obj2; int poll_fired, poll_has_timeout;      /* KSIM poll: readiness predicate, virtual time-out */
     int woken;                     /* for cond waiters: set by signal/broadcast/spurious */
 } Thread;
 
